@@ -20,6 +20,7 @@ import (
 	"strings"
 
 	"github.com/openacid/slim/trie"
+	"sort"
 )
 
 type c18Obs struct {
@@ -370,6 +371,18 @@ func init() {
 			case i < 12 || i%97 == 0:
 				tc.Keys, tc.Kind = []string{randBytes(r, r.Intn(4))}, "single"
 				tc.IDs = genValueIDs(r, 1, r.Intn(VKindCnt))
+			}
+			if i%50 == 23 {
+				// a very deep trie: every key is a prefix of the next, 260..420 levels
+				depth := 260 + r.Intn(160)
+				unit := []string{"a", "xy", "\x00"}[r.Intn(3)]
+				keys := make([]string, depth)
+				for j := range keys {
+					keys[j] = strings.Repeat(unit, j+1)
+				}
+				sort.Strings(keys)
+				tc.Keys, tc.Kind = keys, "deep-chain"
+				tc.IDs, tc.VKind = genValueIDs(r, len(keys), VDistinct), vkindNames[VDistinct]
 			}
 			if i%10 == 5 {
 				// the label bitmaps end exactly on a word boundary with a set bit: the
